@@ -61,6 +61,23 @@ def run(ctx):
     corpus = querycorpus.tlc_corpus(ctx, "MC_Query", ["MC_Query_q2.cfg"] if ctx.quick else ["MC_Query_t1.cfg", "MC_Query_t2.cfg"])
     step = 7 if ctx.quick else 3
     pairs = [(d, c["dot"]) for d, cs in corpus for k, c in enumerate(cs) if not c["err"] and (k + len(d)) % step == 0]
+    # collectors: the matches are the members of the virtual result - among them, for the parent() families, the document root
+    # (a refusal must leave the document whole however deep the root sits in the wrapped results)
+    ccorpus = querycorpus.tlc_corpus(ctx, "MC_Query", ["MC_Query_c15q.cfg"] if ctx.quick else ["MC_Query_c15t.cfg"])
+    cstep = 5 if ctx.quick else 1
+    n0 = len(pairs)
+    pairs += [(d, c["dot"]) for d, cs in ccorpus for k, c in enumerate(cs)
+              if "COLLECTOR" in c["ty"] and not c["err"] and ")-(" not in c["dot"] and (k + len(d)) % cstep == 0]
+    for d, _ in ccorpus:
+        root = d[0]
+        if root["k"] == "map" and root["keys"]:
+            ks = [k["v"] for k in root["keys"] if k["t"] == "str"]
+            if ks:
+                a, b = ks[0], ks[-1]
+                pairs += [(d, "(%s[parent()])+(%s)" % (a, b)), (d, "((%s)+(%s[parent()]))+(%s)" % (b, a, b)), (d, "(%s)+(%s[parent()])" % (b, a))]
+        elif root["k"] == "seq" and len(root["kids"]) >= 2:
+            pairs += [(d, "([0][parent()])+([1])"), (d, "(([1])+([0][parent()]))+([1])")]
+    n_coll = len(pairs) - n0
     matched = querycorpus.pmap(_matched, pairs, chunk=500)
     recs = [{"id": i, "doc": d, "ids": ids} for i, (d, dot, ids) in enumerate(matched)]
     exp = {}
@@ -85,6 +102,8 @@ def run(ctx):
         ctx.violation(sig, "delete %r on %s (matches %s): %s" % (dot, absdoc.concretise(doc, "flow").strip(), ids, bad),
                       {"kind": "observed", "doc": doc, "dot": dot})
     ctx.coverage["observed_match_deletes"] = len(items)
+    ctx.coverage["observed_collector_paths_offered"] = n_coll
+    ctx.coverage["observed_deletes_with_root_among_matches"] = sum(1 for it in items if it[3]["root"])
     ctx.coverage["observed_match_deletes_with_repeated_matches"] = n_rep
     ctx.coverage["evaluations"] += len(items)
     ctx.coverage["traces_validated_against_impl"] += len(items)
